@@ -892,6 +892,9 @@ func worldTFBad() *World {
 		Docs: map[string]string{
 			"bad.tf":  tfBad,
 			"vars.tf": tfVars,
+			// calls left open right behind '=' (the parser gives them a range without end)
+			"cut1.tf": "variable \"cut\" {\n  type =list(\n",
+			"cut2.tf": "locals {\n  cut =upper(\n  next = 1\n",
 		},
 	}
 }
